@@ -1,4 +1,4 @@
-"""C17 fact extractor: regenerates props/C17/coq/Extracted.v from the source —
+"""C17 fact extractor: regenerates props/C17/coq/Extracted.v and Extracted2.v from the source —
 the pack-size constants of repofile/packfile.rs, the type given to an empty pack by
 IndexPack::blob_type, and which sections of an index file
 GlobalIndex::new_from_collector feeds into the collector."""
@@ -40,6 +40,53 @@ def gen(repo):
     uses_marked = "packs_to_delete" in nfc or "all_packs" in nfc
     if not ext or not (uses_packs or uses_marked):
         raise ExtractError("GlobalIndex::new_from_collector: cannot tell which sections are loaded: " + nfc)
+    # PrunePlan::from_prune_options: the index prune builds for itself
+    pr = read(repo, "crates/core/src/commands/prune.rs")
+    fpo = " ".join(fn_body(pr, "from_prune_options").split())
+    mt = re.search(r"let mut index_collector = IndexCollector::new\(IndexType::(\w+)\);", fpo)
+    if not mt or mt.group(1) not in ("Full", "DataIds", "OnlyTrees"):
+        raise ExtractError("from_prune_options: IndexCollector::new(IndexType::..) not found")
+    prune_type = mt.group(1)
+    pext = [e.strip() for e in re.findall(r"index_collector\.extend\(([^;]*)\);", fpo)]
+    known = {"index.packs.clone()": "packs", "index.packs": "packs",
+             "index.packs_to_delete.clone()": "marked", "index.packs_to_delete": "marked"}
+    if not pext or any(e not in known for e in pext):
+        raise ExtractError("from_prune_options: unrecognised index_collector.extend calls: %r" % pext)
+    order = [known[e] for e in pext]
+    if order not in (["packs"], ["marked"], ["packs", "marked"]):
+        raise ExtractError("from_prune_options: sections are extended in an unexpected order: %r" % order)
+    if not re.search(r"GlobalIndex::new_from_index\(index_collector\.into_index\(\)\)", fpo):
+        raise ExtractError("from_prune_options: the index is no longer built by into_index + new_from_index")
+    # check_packs (commands/check.rs): the index `check` builds for itself
+    ck = read(repo, "crates/core/src/commands/check.rs")
+    cpk = " ".join(fn_body(ck, "check_packs").split())
+    mck = re.search(r"let mut index_collector = IndexCollector::new\(IndexType::(\w+)\);", cpk)
+    if not mck or mck.group(1) not in ("Full", "DataIds", "OnlyTrees"):
+        raise ExtractError("check_packs: IndexCollector::new(IndexType::..) not found")
+    cext = [e.strip() for e in re.findall(r"index_collector\.extend\(([^;]*)\);", cpk)]
+    if not cext or any(e not in known for e in cext):
+        raise ExtractError("check_packs: unrecognised index_collector.extend calls: %r" % cext)
+    corder = [known[e] for e in cext]
+    if corder not in (["packs"], ["marked"], ["packs", "marked"]):
+        raise ExtractError("check_packs: sections are extended in an unexpected order: %r" % corder)
+    # BlobType::is_cacheable
+    bl = read(repo, "crates/core/src/blob.rs")
+    ic = " ".join(fn_body(bl, "is_cacheable").split())
+    mc = re.fullmatch(r"match self \{ Self::Tree => (true|false), Self::Data => (true|false), \}", ic)
+    if not mc:
+        raise ExtractError("BlobType::is_cacheable no longer has the expected shape: " + ic)
+    # IndexEntry::read_data / read_encrypted_partial: which fields of the entry reach the backend read
+    ixs = read(repo, "crates/core/src/index.rs")
+    rd = " ".join(fn_body(ixs, "read_data").split())
+    if not re.search(r"be\.read_encrypted_partial\( FileType::Pack, &self\.pack, self\.blob_type\.is_cacheable\(\), self\.location, \)\?", rd):
+        raise ExtractError("IndexEntry::read_data no longer has the expected shape: " + rd)
+    dc = read(repo, "crates/core/src/backend/decrypt.rs")
+    rep = " ".join(fn_body(dc, "read_encrypted_partial").split())
+    if not re.search(r"self\.read_encrypted_from_partial\( &self\.read_partial\(tpe, id, cacheable, location\.offset, location\.length\)\?, location\.uncompressed_length, \)", rep):
+        raise ExtractError("read_encrypted_partial no longer has the expected shape: " + rep)
+    bfb = " ".join(fn_body(ixs, "blob_from_backend").split())
+    if not re.search(r"self\.get_id\(tpe, id\)\.map_or_else\(", bfb) or not re.search(r"\|ie\| ie\.read_data\(be\)", bfb):
+        raise ExtractError("ReadIndex::blob_from_backend no longer has the expected shape: " + bfb)
     out = ["(* GENERATED by props/C17/extract.py from packfile.rs, indexfile.rs, index.rs - do not edit *)",
            "From Verif.Base Require Import Tactics.",
            "From Verif.C17 Require Import Base17.",
@@ -49,7 +96,17 @@ def gen(repo):
     out.append("Definition EMPTY_PACK_TYPE : blob_type := %s." % empty_type)
     out.append("Definition LOADER_USES_PACKS : bool := %s." % ("true" if uses_packs else "false"))
     out.append("Definition LOADER_USES_MARKED : bool := %s." % ("true" if uses_marked else "false"))
+    out.append("Definition PRUNE_INDEX_TYPE : imode := %s." % prune_type)
+    out.append("Definition PRUNE_USES_PACKS : bool := %s." % ("true" if "packs" in order else "false"))
+    out.append("Definition PRUNE_USES_MARKED : bool := %s." % ("true" if "marked" in order else "false"))
+    out.append("Definition CHECK_INDEX_TYPE : imode := %s." % mck.group(1))
+    out.append("Definition CHECK_USES_PACKS : bool := %s." % ("true" if "packs" in corder else "false"))
+    out.append("Definition CHECK_USES_MARKED : bool := %s." % ("true" if "marked" in corder else "false"))
+    out.append("Definition TREE_IS_CACHEABLE : bool := %s." % mc.group(1))
+    out.append("Definition DATA_IS_CACHEABLE : bool := %s." % mc.group(2))
     meta = dict(consts)
+    meta.update({"check_index_type": mck.group(1), "check_sections": corder, "prune_index_type": prune_type, "prune_sections": order,
+                 "tree_is_cacheable": mc.group(1) == "true", "data_is_cacheable": mc.group(2) == "true"})
     meta.update({"empty_pack_type": empty_type, "loader_uses_packs": uses_packs, "loader_uses_marked": uses_marked})
     return "\n".join(out) + "\n", meta
 
